@@ -6,6 +6,7 @@ import (
 	"strings"
 
 	"github.com/elnosh/gonuts/cashu"
+	"github.com/elnosh/gonuts/cashu/nuts/nut04"
 	"github.com/elnosh/gonuts/cashu/nuts/nut07"
 
 	"verif/harness/dbwrap"
@@ -333,6 +334,16 @@ func (w *W) QueryUnderReadFaults(restore bool, items []string) {
 		b, _ := json.Marshal(st)
 		return string(b), nil
 	}
+	what := "state-check"
+	if restore {
+		what = "restore"
+	}
+	w.UnderReadFaults("C15", what, fmt.Sprintf("%s of %d entries", what, len(items)), run)
+}
+
+// UnderReadFaults runs a read-only request once fault-free and then once per storage read call k it makes, with an
+// error injected at exactly that call: each faulted run must fail or give the identical answer.
+func (w *W) UnderReadFaults(prop, what, descr string, run func() (string, error)) {
 	me := dbwrap.GID()
 	var names []string
 	k := -1
@@ -357,10 +368,6 @@ func (w *W) QueryUnderReadFaults(restore bool, items []string) {
 	if err != nil {
 		return
 	}
-	what := "state-check"
-	if restore {
-		what = "restore"
-	}
 	for kk, name := range names {
 		if !strings.HasPrefix(name, "Get") {
 			continue
@@ -369,7 +376,60 @@ func (w *W) QueryUnderReadFaults(restore bool, items []string) {
 		got, err := run()
 		w.Outcomes[what+"-under-read-fault"]++
 		if err == nil && got != base {
-			w.viol("C15", what+"-under-read-fault/"+name, "%s of %d entries with a storage error injected at its read call %d (%s) answered without error, but not the truth: %.300s  instead of  %.300s", what, len(items), kk, name, got, base)
+			w.viol(prop, what+"-under-read-fault/"+name, "%s with a storage error injected at its read call %d (%s) answered without error, but not the truth: %.300s  instead of  %.300s", descr, kk, name, got, base)
 		}
+	}
+}
+
+// ProbeLimitsUnderReadFaults: the balance figures, the info flag and the refusal of a mint quote that would exceed the
+// maximum balance must not change when one storage read of the request fails — the request may fail instead (C16).
+func (w *W) ProbeLimitsUnderReadFaults() {
+	recov := func(f func() (string, error)) func() (string, error) {
+		return func() (ans string, err error) {
+			defer func() {
+				if r := recover(); r != nil {
+					err = fmt.Errorf("panic: %v", r)
+				}
+			}()
+			return f()
+		}
+	}
+	w.UnderReadFaults("C16", "total-balance", "TotalBalance()", recov(func() (string, error) {
+		b, err := w.M.M.TotalBalance()
+		return fmt.Sprint(b), err
+	}))
+	w.UnderReadFaults("C16", "issued-ecash", "IssuedEcash()", recov(func() (string, error) {
+		m, err := w.M.M.IssuedEcash()
+		b, _ := json.Marshal(m)
+		return string(b), err
+	}))
+	w.UnderReadFaults("C16", "redeemed-ecash", "RedeemedEcash()", recov(func() (string, error) {
+		m, err := w.M.M.RedeemedEcash()
+		b, _ := json.Marshal(m)
+		return string(b), err
+	}))
+	w.UnderReadFaults("C16", "info-disabled", "RetrieveMintInfo().nuts[4].disabled", recov(func() (string, error) {
+		info, err := w.M.M.RetrieveMintInfo()
+		if err != nil {
+			return "", err
+		}
+		return fmt.Sprint(info.Nuts.Nut04.Disabled), nil
+	}))
+	if max := w.Cfg.Limits.MaxBalance; max > 0 {
+		bal, err := w.M.M.TotalBalance()
+		if err != nil || bal > max {
+			return
+		}
+		over := max - bal + 1 // smallest amount that lifts the balance above the maximum
+		if lim := w.Cfg.Limits.MintingSettings.MaxAmount; lim > 0 && over > lim {
+			return
+		}
+		w.UnderReadFaults("C16", "over-balance-mint-quote", fmt.Sprintf("RequestMintQuote(%d) at balance %d, max balance %d", over, bal, max), recov(func() (string, error) {
+			_, err := w.M.M.RequestMintQuote(nut04.PostMintQuoteBolt11Request{Amount: over, Unit: "sat"})
+			if err != nil {
+				return "refused", nil
+			}
+			return "granted", nil
+		}))
 	}
 }
